@@ -680,7 +680,7 @@ class HState:
         r, resps = self._cmd(sn, f"UID EXPUNGE {setstr}" if setstr else "EXPUNGE", "expunge", bool(setstr))
         st = self._status("C05", ev, r, exp, False)
         if st == "ok":
-            self._flush_check(sn, "EXPUNGE")
+            self._flush_check(sn, "EXPUNGE", strict=False)  # not one of the property's flush points: an unannounced delivery may still be missing
         elif st == "refused" and exp == ("OK",):
             self._rollback(pre)
         self.idle_quiescent_checks()
@@ -717,7 +717,7 @@ class HState:
                     self.reveal(dst, int(code[1]), m.uid, m.cid, "COPYUID")
                     self.announced[canon_name(dst)] = max(self.announced.get(canon_name(dst), 0), m.uid)
             if move:
-                self._flush_check(sn, "MOVE")
+                self._flush_check(sn, "MOVE", strict=False)
         self.idle_quiescent_checks()
 
     def ev_move(self, ev):
@@ -1272,6 +1272,9 @@ class HState:
             row.pop("mtime", None)
         sess = []
         for t, c in srv.clients.items():
+            ch = getattr(c, "cmd_handler", None)
+            if ch is not None:  # a POP3 session: its handler's marks, snapshot, caches
+                sess.append((_sess_of(self.w, c), "pop3", _plain_attrs(ch, ("name",))))
             cp = getattr(c, "cmd_processor", None)
             if cp is None:
                 continue
